@@ -2,7 +2,7 @@
    encoding back: indefinite body containers at every derive level, heads of any fitting width (C09). *)
 From MC Require Import Bytes BytesFacts Monad Cbor Utf8 Half Decoder Encoder EncoderFacts DecoderFacts IntFacts HeadFacts Types
   DeriveSchema DeriveEnc DeriveLen DeriveDec DeriveDoc DeriveKnown DeriveFacts DeriveLenFacts DeriveDocFacts DeriveDecFacts
-  DeriveReframe TypeSemLoops TypeSemFields AccFacts TypesItem DeriveClosed.
+  DeriveReframe TypeSem TypeSemLoops TypeSemFields TypeSemAgree TypeSemRound AccFacts TypesItem DeriveClosed.
 From Coq Require Import Lia Permutation.
 Local Open Scope N_scope.
 
@@ -999,3 +999,68 @@ Proof. intros Hok He. exists []. now apply reframe_nil. Qed.
 Lemma reframe_canonical Sc d v cs : schema_ok Sc = true -> gen_encode Sc d v = Some cs ->
   reframe_with [] Sc d v = Some (flat cs) /\ reframe Sc d v (flat cs).
 Proof. intros H1 H2. split; [exact (reframe_nil Sc d v cs H1 H2)|exact (reframe_refl Sc d v cs H1 H2)]. Qed.
+
+(* ---- re-framed leaves: any well-formed item the specification of the built-in types reads as v (C04_types_lenient) ---- *)
+Lemma rf_leaf_item_reads c t v b : leaf_ok t -> rf_leaf_item (c_alloc c) t v b ->
+  b <> [] /\ nobrk b /\ reads_f (decode_ty c t) b v.
+Proof.
+  intros Hl [(cs & He & ->)|(e & -> & Hwf & Hs)].
+  - apply (rf_leaf_enc_reads c t Hl v [] (flat cs) []). unfold rf_leaf_enc, rf_lift. now rewrite He.
+  - destruct Hl as (_ & _ & Hnb). rewrite whole_no_bare in Hnb.
+    split; [destruct (CborFacts.ser_nonempty e) as (x & r & ->); discriminate|].
+    split; [intros r p L _ _; exists (spec_type e); split; [now apply datatype_spec|apply spec_type_not_break]|].
+    intros fuel r p L Hfu HL Hp.
+    assert (H64 : len (ser e) < 18446744073709551616) by (unfold two64 in HL; lia).
+    pose proof (types_agree_whole c t e r p L fuel Hnb Hwf Hp H64 Hfu) as Hag. rewrite Hs in Hag. exact Hag.
+Qed.
+
+Theorem reframe_leaves_roundtrip Sc : schema_ok Sc = true -> schema_all leaf_ok Sc ->
+  forall c d v bs rest, schema_rt Sc = true -> reframe_leaves (c_alloc c) Sc d v bs -> len (bs ++ rest) < two64 ->
+  gen_decode c Sc d (start (bs ++ rest)) =
+    (Ok (default_skipped Sc d v), mkdst (len bs) rest (len (bs ++ rest))).
+Proof.
+  intros Hok Hall c d v bs rest Hrt (leaf & ch & ch' & Hw & Hre) Hb.
+  apply (gen_reframe_roundtrip c leaf_ok leaf) with (ch := ch) (ch' := ch'); try assumption.
+  intros t Ht v0 ch0 b ch1 Hl. apply (rf_leaf_item_reads c t v0 b Ht). exact (Hw t v0 ch0 b ch1 Hl).
+Qed.
+
+(* it contains `reframe` (leaves as written) *)
+Lemma rf_leaf_enc_writer alloc : rf_leaf_writer alloc rf_leaf_enc.
+Proof.
+  intros t v ch b ch' H. left. unfold rf_leaf_enc in H. apply rf_lift_some in H.
+  destruct (encode_ty t v) as [cs|]; [|discriminate]. injection H as <-. eauto.
+Qed.
+
+Lemma reframe_in_leaves alloc Sc d v bs : reframe Sc d v bs -> reframe_leaves alloc Sc d v bs.
+Proof.
+  intros [ch H]. unfold reframe_with in H. destruct (gen_reframe_f rf_leaf_enc (S d) Sc d v ch) as [[b ch']|] eqn:E; [|discriminate].
+  injection H as ->. exists rf_leaf_enc, ch, ch'. split; [apply rf_leaf_enc_writer|exact E].
+Qed.
+
+(* with feature alloc the encoder's own leaf is itself an item the specification reads as v (C04_types_roundtrip_consistent):
+   the first alternative of rf_leaf_item is then an instance of the second *)
+Lemma rf_leaf_enc_is_item t v cs : leaf_ok t -> encode_ty t v = Some cs -> len (flat cs) < two64 ->
+  exists e, flat cs = ser e /\ wf e = true /\ spec_ty_lenient_at true t e = TXOk v (len (ser e)).
+Proof.
+  intros (Hok & Hrt & Hnb) He Hb. destruct (types_wellformed t v cs Hnb He Hb) as (i & e & _ & E & Hwf & _).
+  exists e. split; [assumption|]. split; [assumption|].
+  assert (Hw : whole_ty t = true) by (now rewrite <- whole_no_bare).
+  assert (H64 : len (ser e) < 18446744073709551616) by (rewrite <- E; exact Hb).
+  destruct (types_roundtrip_spec t v cs e Hok Hrt Hw He E Hwf H64) as [Hh Hs].
+  unfold spec_ty, spec_ty_at in Hs. now rewrite Hh in Hs.
+Qed.
+
+(* the wide-integer leaf writer is one *)
+Lemma rf_leaf_wide_writer alloc : rf_leaf_writer alloc rf_leaf_wide.
+Proof.
+  intros t v ch b ch' H.
+  destruct t; try (apply (rf_leaf_enc_writer alloc _ v ch b ch'); exact H).
+  destruct v; try (apply (rf_leaf_enc_writer alloc _ _ ch b ch'); exact H).
+  cbn [rf_leaf_wide] in H. destruct (N.leb_spec n (umax w)) as [Hn|Hn]; [|discriminate].
+  apply rf_head_some in H as [k ->]. right. exists (EUInt (rf_pick_width n k) n).
+  assert (H64 : n < two64) by (unfold two64; destruct w; cbn [umax] in Hn; lia).
+  split; [reflexivity|]. split; [cbn [wf]; now apply fits_pick_width|].
+  unfold spec_ty_lenient_at. cbn [sem_ty consumed_ty]. unfold ts_uint, ts_int. cbn [Acc.int_value]. unfold Acc.in_range.
+  destruct (Z.leb_spec 0 (Z.of_N n)); [|lia]. destruct (Z.leb_spec (Z.of_N n) (Z.of_N (umax w))); [|lia].
+  cbn [andb ts_map]. now rewrite N2Z.id.
+Qed.
